@@ -17,6 +17,7 @@ package wire
 
 import (
 	"fmt"
+	"go/ast"
 	"go/token"
 	"go/types"
 
@@ -240,7 +241,9 @@ func (g *vGraph) materialise() *vBuilt {
 			b.items[k] = ib
 			dst.Bindings = append(dst.Bindings, ib)
 		case nkValue:
-			v := &Value{Out: vType(k)}
+			lit := &ast.BasicLit{Kind: token.INT, Value: fmt.Sprintf("%d", k)}
+			info := &types.Info{Types: map[ast.Expr]types.TypeAndValue{lit: {Type: vType(k)}}}
+			v := &Value{Out: vType(k), expr: lit, info: info}
 			b.items[k] = v
 			dst.Values = append(dst.Values, v)
 		}
